@@ -600,4 +600,265 @@ theorem constant_sound_aux : ∀ w : Wf, wf w = true → ∀ (ch : Chan) (c t : 
         simp [si, h]
   | reversed i ih => intro _ ch c t _ h; simp [constantValue] at h
 
+
+/-! ### sampling is total on `[0, duration]` -/
+
+theorem tableGo_acc_some (t : Rat) : ∀ (es : List Entry) (acc : Option Rat), acc.isSome = true →
+    (tableGo t acc es).isSome = true := by
+  intro es
+  induction es with
+  | nil => intro acc h; simpa [tableGo] using h
+  | cons e rest ih =>
+    intro acc h
+    cases rest with
+    | nil => simpa [tableGo] using h
+    | cons e2 r =>
+      simp only [tableGo]
+      apply ih
+      split <;> simp [h]
+
+theorem tableGo_covered (t : Rat) : ∀ (rest : List Entry) (e : Entry) (acc : Option Rat),
+    tableOk.mono (e :: rest) = true → rest ≠ [] → e.t ≤ t →
+    (∀ l, (e :: rest).getLast? = some l → t ≤ l.t) → (tableGo t acc (e :: rest)).isSome = true := by
+  intro rest
+  induction rest with
+  | nil => intro e acc _ h; exact absurd rfl h
+  | cons e2 r ih =>
+    intro e acc hm _ hge hlast
+    simp [tableOk.mono] at hm
+    simp only [tableGo]
+    by_cases hle : t ≤ e2.t
+    · apply tableGo_acc_some
+      simp [hge, hle]
+    · have hr : r ≠ [] := by
+        intro hr
+        subst hr
+        exact hle (hlast e2 (by simp))
+      have hlt : e2.t ≤ t := Rat.le_of_lt (Rat.not_le.mp hle)
+      apply ih e2 _ hm.2 hr hlt
+      intro l hl
+      apply hlast l
+      simpa [List.getLast?_cons_cons] using hl
+
+theorem table_total (es : List Entry) (h : tableOk es = true) (t : Rat) (h0 : 0 ≤ t)
+    (hle : t ≤ duration (.table ch es)) : (tableSample es t).isSome = true := by
+  match es, h with
+  | e1 :: e2 :: rest, h =>
+    simp [tableOk] at h
+    simp only [tableSample]
+    apply tableGo_covered t (e2 :: rest) e1 none h.2 (by simp) (by rw [h.1]; exact h0)
+    intro l hl
+    simp only [duration, hl] at hle
+    exact hle
+
+theorem sampleMulti_first : ∀ (ws : List Wf) (ch : Chan), ch ∈ chanUnion ws →
+    ∃ w ∈ ws, ch ∈ channels w ∧ ∀ t, sampleMulti ws ch t = sample w ch t := by
+  intro ws
+  induction ws with
+  | nil => intro ch h; simp [chanUnion] at h
+  | cons w rest ih =>
+    intro ch h
+    simp only [chanUnion, mem_union] at h
+    by_cases hm : ch ∈ channels w
+    · exact ⟨w, by simp, hm, by intro t; simp [sampleMulti, hm]⟩
+    · have hr : ch ∈ chanUnion rest := by
+        cases h with
+        | inl a => exact absurd a hm
+        | inr b => exact b
+      obtain ⟨x, hx, a, b⟩ := ih ch hr
+      exact ⟨x, by simp [hx], a, by intro t; simp [sampleMulti, hm, b]⟩
+
+/-- `g` is defined (not NaN) on the channels `C` -/
+def DefinedOn (C : List Chan) (g : Chan → Option Rat) : Prop := ∀ c ∈ C, (g c).isSome = true
+
+theorem dot_defined (C : List Chan) (g : Chan → Option Rat) (hd : DefinedOn C g) :
+    ∀ (row : List Rat) (l : List Chan), (∀ c ∈ l, c ∈ C) → (dot row (l.map g)).isSome = true := by
+  intro row
+  induction row with
+  | nil => intro l _; cases l <;> simp [dot]
+  | cons m ms ih =>
+    intro l hl
+    cases l with
+    | nil => simp [dot]
+    | cons c cs =>
+      simp only [List.map, dot]
+      have h1 := hd c (hl c (by simp))
+      have h2 := ih cs (fun c' hc' => hl c' (by simp [hc']))
+      cases hg : g c with
+      | none => simp [hg] at h1
+      | some y =>
+        cases hd' : dot ms (cs.map g) with
+        | none => simp [hd'] at h2
+        | some z => simp [omul, oadd]
+
+theorem atom_defined (a : TAtom) (C : List Chan) (hok : a.okOn C = true) (g : Chan → Option Rat)
+    (hd : DefinedOn C g) (t : Rat) : DefinedOn (a.outputChannels C) (a.applyF t g) := by
+  intro c hc
+  cases a with
+  | identity => exact hd c hc
+  | offset m =>
+    simp only [TAtom.outputChannels] at hc
+    simp only [TAtom.applyF]
+    have := hd c hc
+    cases hg : g c with
+    | none => simp [hg] at this
+    | some y => cases m.lookup c <;> simp [oadd]
+  | scaling m =>
+    simp only [TAtom.outputChannels] at hc
+    simp only [TAtom.applyF]
+    have := hd c hc
+    cases hg : g c with
+    | none => simp [hg] at this
+    | some y => cases m.lookup c <;> simp [omul]
+  | linear mat ins outs =>
+    simp only [TAtom.applyF]
+    simp only [TAtom.outputChannels, mem_union, mem_diff] at hc
+    simp only [TAtom.okOn, Bool.and_eq_true, subsetOf_iff] at hok
+    cases hl : (outs.zip mat).lookup c with
+    | none =>
+      simp only
+      have hlen : outs.length ≤ mat.length := by
+        have := hok.1.2; simp at this; omega
+      have hno := lookup_zip_none outs mat c hlen hl
+      cases hc with
+      | inl h1 => exact hd c h1.1
+      | inr h2 => exact absurd h2 hno
+    | some row =>
+      simp only
+      exact dot_defined C g hd row ins hok.1.1.1
+  | parallel m =>
+    simp only [TAtom.applyF]
+    simp only [TAtom.outputChannels, mem_union] at hc
+    cases hl : m.lookup c with
+    | none =>
+      simp only
+      have := lookup_none_keys m c hl
+      cases hc with
+      | inl h1 => exact hd c h1
+      | inr h2 => exact absurd h2 this
+    | some tv => simp
+
+theorem chain_defined : ∀ (as : List TAtom) (prod C : List Chan), chainOkOn as prod C = true →
+    ∀ (g : Chan → Option Rat), DefinedOn C g → ∀ t,
+    DefinedOn (as.foldl (fun cs a => a.outputChannels cs) C) (applyChain as t g) := by
+  intro as
+  induction as with
+  | nil => intro _ C _ g hd t; simpa [applyChain] using hd
+  | cons a rest ih =>
+    intro prod C hok g hd t
+    simp only [chainOkOn, Bool.and_eq_true] at hok
+    simp only [applyChain, List.foldl]
+    exact ih _ _ hok.2 _ (atom_defined a C hok.1.1 g hd t) t
+
+theorem trafo_defined (tr : Trafo) (C : List Chan) (hok : tr.okOn C = true) (g : Chan → Option Rat)
+    (hd : DefinedOn C g) (t : Rat) : DefinedOn (tr.outputChannels C) (tr.applyF t g) := by
+  cases tr with
+  | atom a => exact atom_defined a C hok g hd t
+  | chain as => exact chain_defined as [] C hok g hd t
+
+theorem lookupAll_some {α} (fs : List (Chan × α)) (cs : List Chan) (h : lookupAll fs cs = true)
+    (c : Chan) (hc : c ∈ cs) : ∃ f, fs.lookup c = some f := by
+  simp only [lookupAll, List.all_eq_true] at h
+  exact Option.isSome_iff_exists.mp (h c hc)
+
+theorem sample_total_aux : ∀ w : Wf, wf w = true → ∀ (ch : Chan) (t : Rat), ch ∈ channels w →
+    0 ≤ t → t ≤ duration w → (sample w ch t).isSome = true := by
+  intro w
+  induction w using Wf.induct with
+  | table ch es =>
+    intro hw c t _ h0 hle
+    simp only [sample]
+    exact table_total es (by simpa [wf] using hw) t h0 hle
+  | const d a ch => intro _ c t _ _ _; simp [sample]
+  | func s i d ch => intro _ c t _ _ _; simp [sample]
+  | seq ws ih =>
+    intro hw ch t hch h0 hle
+    simp [wf] at hw
+    simp only [duration] at hle
+    simp only [channels] at hch
+    simp only [sample]
+    have hne : ws ≠ [] := by intro e; simp [e] at hw
+    obtain ⟨x, hx, t', a, b, e⟩ := sampleSeq_piece ws ch t hne
+      (fun y hy => duration_nonneg y (wfL_mem hw.1.2 y hy)) h0 hle
+    rw [e]
+    exact ih x hx (wfL_mem hw.1.2 x hx) ch t' ((sameChans_mem ws _ hw.2 x hx ch).mpr hch) a b
+  | multi ws ih =>
+    intro hw ch t hch h0 hle
+    simp [wf] at hw
+    simp only [duration] at hle
+    simp only [channels] at hch
+    simp only [sample]
+    obtain ⟨x, hx, hm, hs⟩ := sampleMulti_first ws ch hch
+    rw [hs t]
+    have hd := sameDur_mem ws _ hw.1.2 x hx
+    exact ih x hx (wfL_mem hw.1.1.2 x hx) ch t hm h0 (by rw [hd]; exact hle)
+  | rep b n ih =>
+    intro hw ch t hch h0 hle
+    simp [wf] at hw
+    simp only [duration] at hle
+    simp only [channels] at hch
+    simp only [sample]
+    obtain ⟨t', a, b', e⟩ := repSample_piece (fun t' => sample b ch t') (duration b) n t hw.2 h0 hle
+    rw [e]
+    exact ih hw.1 ch t' hch a b'
+  | trans i tr ih =>
+    intro hw ch t hch h0 hle
+    simp [wf] at hw
+    simp only [duration] at hle
+    simp only [channels] at hch
+    simp only [sample]
+    have hd : DefinedOn (channels i) (fun c => sample i c t) := fun c hc => ih hw.1 c t hc h0 hle
+    exact trafo_defined tr (channels i) hw.2 _ hd t ch hch
+  | subset i cs ih =>
+    intro hw ch t hch h0 hle
+    simp [wf] at hw
+    simp only [duration] at hle
+    simp only [channels] at hch
+    simp only [sample]
+    exact ih hw.1 ch t ((subsetOf_iff _ _).mp hw.2 ch hch) h0 hle
+  | arith l op r ihl ihr =>
+    intro hw ch t hch h0 hle
+    simp [wf] at hw
+    simp only [duration] at hle
+    simp only [channels, mem_union] at hch
+    simp only [sample]
+    have hler : t ≤ duration r := by rw [← hw.2]; exact hle
+    by_cases hl : ch ∈ channels l
+    · have sl := ihl hw.1.1 ch t hl h0 hle
+      by_cases hr : ch ∈ channels r
+      · have sr := ihr hw.1.2 ch t hr h0 hler
+        simp only [hl, hr, if_true]
+        cases hsl : sample l ch t with
+        | none => simp [hsl] at sl
+        | some a =>
+          cases hsr : sample r ch t with
+          | none => simp [hsr] at sr
+          | some b => cases op <;> simp [ArithOp.apply, oadd, osub]
+      · simp only [hl, hr, if_true, if_false]; exact sl
+    · have hr : ch ∈ channels r := by
+        cases hch with
+        | inl a => exact absurd a hl
+        | inr b => exact b
+      have sr := ihr hw.1.2 ch t hr h0 hler
+      simp only [hl, hr, if_true, if_false]
+      cases hsr : sample r ch t with
+      | none => simp [hsr] at sr
+      | some b => cases op <;> simp [ArithOp.rhsOnly]
+  | functor i fs ih =>
+    intro hw ch t hch h0 hle
+    simp [wf] at hw
+    simp only [duration] at hle
+    simp only [channels] at hch
+    simp only [sample]
+    obtain ⟨f, hf⟩ := lookupAll_some fs _ hw.2 ch hch
+    have := ih hw.1 ch t hch h0 hle
+    simp [hf, this]
+  | reversed i ih =>
+    intro hw ch t hch h0 hle
+    simp [wf] at hw
+    simp only [duration] at hle
+    simp only [channels] at hch
+    simp only [sample]
+    exact ih hw ch (duration i - t) hch (by grind) (by grind)
+
 end QP.C08
